@@ -864,7 +864,7 @@ pub fn run(a: &Args, rep: &mut Report, cl: bool) {
     // Accesses performed and refused while 7 other threads do the same on their own VMs: structured
     // programs (stack spills, packet and metadata loads and stores, refused out-of-region accesses)
     // whose sequential outcome is known, each thread with its own buffers (mon_par.rs)
-    if !cfg!(miri) {
+    if !cfg!(miri) && crate::mon_par::par_mult() > 0 {
         let mut batch = Vec::new();
         for k in 0..(if q { 768 } else { 4096 }) {
             let (c, _) = crate::genp::gen_struct(&mut rng, &crate::genp::StructOpts { allow_helpers: false, ..Default::default() });
